@@ -48,6 +48,13 @@ type Case struct {
 	Sizes     []int   `json:"sizes"` // payload size of message seq is Sizes[seq % len]
 	Handlers  []HSpec `json:"handlers"`
 	Yield     int     `json:"yield"`
+	// FailedSends: before the run, this many sends fail on another connection
+	// of the process whose peer is gone (from two goroutines). What a failed
+	// send leaves behind must not show on a healthy connection.
+	FailedSends int `json:"failed_sends,omitempty"`
+	// StallMS: the receiving side only starts to read after this long (a busy
+	// or stopped peer): senders wait, nothing is lost or damaged.
+	StallMS int `json:"stall_ms,omitempty"`
 }
 
 func transports() []string {
@@ -80,6 +87,9 @@ func genCase(t *rapid.T) Case {
 		})
 	}
 	c.Yield = rapid.IntRange(0, 3).Draw(t, "yield")
+	if rapid.IntRange(0, 3).Draw(t, "failedfirst") == 0 {
+		c.FailedSends = rapid.IntRange(1, 40).Draw(t, "failedsends")
+	}
 	// keep the total volume bounded
 	total := 0
 	for s := 0; s < c.PerSender; s++ {
@@ -135,12 +145,49 @@ type rx struct {
 
 // connect builds a connected (sender endpoint, receiver endpoint) pair; the
 // receiver's handlers are registered before it processes any byte.
+// lateEndPoint stands for the receiving endpoint of a stalled peer: it comes
+// into being (and starts to read) after the stall.
+type lateEndPoint struct {
+	qnet.EndPoint
+	mu    sync.Mutex
+	real  qnet.EndPoint
+	close bool
+}
+
+func (l *lateEndPoint) Close() error {
+	l.mu.Lock()
+	defer l.mu.Unlock()
+	l.close = true
+	if l.real != nil {
+		return l.real.Close()
+	}
+	return nil
+}
+
+func stalled(c Case, st qnet.Stream, register func(e qnet.EndPoint)) qnet.EndPoint {
+	if c.StallMS == 0 {
+		return qnet.EndPointFinalizer(st, register)
+	}
+	l := &lateEndPoint{}
+	go func() {
+		time.Sleep(time.Duration(c.StallMS) * time.Millisecond)
+		l.mu.Lock()
+		defer l.mu.Unlock()
+		if l.close {
+			st.Close()
+			return
+		}
+		l.real = qnet.EndPointFinalizer(st, register)
+	}()
+	return l
+}
+
 func connect(c Case, register func(e qnet.EndPoint)) (a, b qnet.EndPoint, cleanup func(), err error) {
 	cleanup = func() {}
 	switch c.Transport {
 	case "netpipe":
 		x, y := gonet.Pipe()
-		b = qnet.EndPointFinalizer(qnet.ConnStream(y), register)
+		b = stalled(c, qnet.ConnStream(y), register)
 		a = qnet.ConnEndPoint(x)
 		return
 	case "script":
@@ -203,7 +250,7 @@ func connect(c Case, register func(e qnet.EndPoint)) (a, b qnet.EndPoint, cleanu
 			err = fmt.Errorf("accept failed")
 			return
 		}
-		b = qnet.EndPointFinalizer(qnet.ConnStream(conn), register)
+		b = stalled(c, qnet.ConnStream(conn), register)
 		return
 	case "fdpipe":
 		dir, _ := os.MkdirTemp("", "c10")
@@ -258,6 +305,24 @@ func checkCase(c Case) error {
 			}
 			e.MakeHandler(h.filter(), rxs[i].queue, nil)
 		}
+	}
+	if c.FailedSends > 0 {
+		x, y := gonet.Pipe()
+		dead := qnet.ConnEndPoint(x)
+		y.Close()
+		var fw sync.WaitGroup
+		for g := 0; g < 2; g++ {
+			fw.Add(1)
+			go func(g int) {
+				defer fw.Done()
+				for i := g; i < c.FailedSends; i += 2 {
+					dead.Send(qnet.NewMessage(qnet.NewHeader(qnet.Event, 9, 9, 9, uint32(i)), payload(99, uint32(i), 10+i*37)))
+				}
+			}(g)
+		}
+		fw.Wait()
+		dead.Close()
+		vt.Label("failed-sends-on-another-connection-first")
 	}
 	a, b, cleanup, err := connect(c, register)
 	defer cleanup()
@@ -406,6 +471,9 @@ collect:
 	if big {
 		labels = append(labels, "payload>transport-buffer")
 	}
+	if c.StallMS > 0 {
+		labels = append(labels, "peer-stalled")
+	}
 	k, _ := json.Marshal(c)
 	vt.Case(nontrivial, string(k), labels...)
 	if nontrivial {
@@ -414,8 +482,24 @@ collect:
 	return nil
 }
 
-func TestSenders(t *testing.T) { vt.Run(t, prop, "TestSenders", genCase, checkCase) }
+// genStalled: a peer which does not read for several seconds while more is
+// outstanding than the transport buffers hold, several goroutines sending.
+func genStalled(t *rapid.T) Case {
+	c := Case{Transport: rapid.SampledFrom([]string{"unix", "tcp", "netpipe", "unix"}).Draw(t, "transport")}
+	c.Senders = rapid.IntRange(2, 4).Draw(t, "senders")
+	c.PerSender = rapid.IntRange(4, 20).Draw(t, "per")
+	c.Sizes = []int{rapid.SampledFrom([]int{3 << 20, 1 << 20, 5 << 20}).Draw(t, "big")}
+	for i := 1; i < c.PerSender; i++ {
+		c.Sizes = append(c.Sizes, rapid.SampledFrom([]int{0, 10, 100, 5000}).Draw(t, "small"))
+	}
+	c.Handlers = []HSpec{{Kind: "all"}, {Kind: "parity", Arg: 1}}
+	c.StallMS = rapid.SampledFrom([]int{1200, 5400, 6500, 11000}).Draw(t, "stall")
+	return c
+}
+
+func TestSenders(t *testing.T)     { vt.Run(t, prop, "TestSenders", genCase, checkCase) }
+func TestStalledPeer(t *testing.T) { vt.Run(t, prop, "TestStalledPeer", genStalled, checkCase) }
 
 func TestReplay(t *testing.T) {
-	vt.Replay(t, map[string]func(json.RawMessage) error{"TestSenders": vt.Decode(checkCase)})
+	vt.Replay(t, map[string]func(json.RawMessage) error{"TestSenders": vt.Decode(checkCase), "TestStalledPeer": vt.Decode(checkCase)})
 }
